@@ -19,7 +19,7 @@ import copy
 from dataclasses import dataclass
 from typing import Any
 
-from tqv.core import Inconclusive, Violation, case_hash, classify_exception, normalise, time_limit
+from tqv.core import Inconclusive, Violation, _Timeout, case_hash, classify_exception, normalise, time_limit
 
 
 @dataclass
@@ -53,6 +53,8 @@ def _guard(fn, timeout):
         return ("violation", v.signature, v.message)
     except Inconclusive as i:
         return ("inconclusive", i.reason)
+    except _Timeout:
+        return ("inconclusive", "timeout")
     except Exception as exc:  # noqa: BLE001
         if (type(exc).__module__ or "").startswith("hypothesis"):
             raise
